@@ -17,7 +17,7 @@ ID = "C06"
 LEVEL = "exploration"
 DECIDING = ["C06.volumes", "C06.borders", "C06.distances"]
 RULE = ("Cartesian position grids: direction algorithm in {ico, cube3D, randomS}, quick ~60 (N, radii) configurations incl. ico_42, cube3D_26 "
-        "(centrally symmetric faces) and the small non-surrounding sets; thorough every N in 4..60 x 6 radial grids (1-4 radii, equal and unequal "
+        "(centrally symmetric faces), thin-shell radial grids (spacing 1e-3 of the radius) and the small non-surrounding sets; thorough every N in 4..60 x 6 radial grids (1-4 radii, equal and unequal "
         "increments). The three getters (+ adjacency) are called on each object. Non-trivial = direction set surrounding the origin with >=2 "
         "shells; distinct by (algorithm, N, radial text)")
 ASSUMPTIONS = ["coplanar direction sets are outside the quantifier (skipped, counted)", "areas/volumes compared at rtol 1e-6, distances 1e-10",
@@ -203,6 +203,8 @@ def drive(PositionGrid, alg, N, text, rng):
 
 
 RADIAL = ["[0.2, 0.3]", "[0.15]", "[0.1, 0.2, 0.3]", "[0.1, 0.15, 0.4]", "linspace(0.2, 0.5, 4)", "[0.05, 0.3, 0.35, 0.9]"]
+# thin shells: radial spacing 1e-3 of the lateral cell size -> lateral faces are rectangles of aspect ratio ~1000 (finding F16)
+THIN = ["[1, 1.0005, 1.001]", "[0.5, 0.501, 0.502]", "[0.3, 0.3002]"]
 
 
 def configs(tier):
@@ -214,6 +216,9 @@ def configs(tier):
         for alg, N in (("ico", 42), ("cube3D", 26), ("ico", 12), ("cube3D", 8), ("randomS", 30), ("cube3D", 98), ("ico", 60), ("randomS", 9)):
             for t in RADIAL[1:5]:
                 out.append((alg, N, t))
+        for alg, N in (("ico", 42), ("randomS", 30), ("cube3D", 26), ("ico", 20)):
+            for t in THIN:
+                out.append((alg, N, t))
     else:
         for alg in ("ico", "cube3D", "randomS"):
             for N in range(4, 61):
@@ -221,6 +226,10 @@ def configs(tier):
                     out.append((alg, N, t))
         for alg, N in (("ico", 162), ("cube3D", 98), ("randomS", 100)):
             out.append((alg, N, RADIAL[0]))
+        for alg in ("ico", "cube3D", "randomS"):
+            for N in (8, 12, 20, 26, 30, 42, 60):
+                for t in THIN:
+                    out.append((alg, N, t))
     return out
 
 
